@@ -74,6 +74,7 @@ type Interp struct {
 	mutexes      map[*Value]*mutexState
 	watch        map[*Value]*watchInfo
 	goDepth      int
+	probing      int
 	scratch      map[string]Value
 	curPos       token.Pos
 	callStack    []*ssa.Function
@@ -83,6 +84,8 @@ type Interp struct {
 	fnCount     map[*ssa.Function]int64
 	sampled     int
 }
+
+type probeBlocked struct{}
 
 type mutexState struct {
 	writer  bool
